@@ -4,11 +4,19 @@ use serde_json::Value;
 
 use crate::common::{Ctx, EvidenceMeta, Stats, TestResult};
 
+pub mod c01;
 pub mod c02;
+pub mod c03;
+pub mod c04;
 pub mod c08;
+pub mod c09;
+pub mod c10;
+pub mod c11;
 pub mod c12;
 pub mod c13;
 pub mod c14;
+pub mod c16;
+pub mod c17;
 pub mod c19;
 
 pub struct Prop {
@@ -19,11 +27,19 @@ pub struct Prop {
 
 pub fn lookup(id: &str) -> Option<Prop> {
     Some(match id {
+        "C01" => Prop { run: c01::run, replay: c01::replay },
         "C02" => Prop { run: c02::run, replay: c02::replay },
+        "C03" => Prop { run: c03::run, replay: c03::replay },
+        "C04" => Prop { run: c04::run, replay: c04::replay },
         "C08" => Prop { run: c08::run, replay: c08::replay },
+        "C09" => Prop { run: c09::run, replay: c09::replay },
+        "C10" => Prop { run: c10::run, replay: c10::replay },
+        "C11" => Prop { run: c11::run, replay: c11::replay },
         "C12" => Prop { run: c12::run, replay: c12::replay },
         "C13" => Prop { run: c13::run, replay: c13::replay },
         "C14" => Prop { run: c14::run, replay: c14::replay },
+        "C16" => Prop { run: c16::run, replay: c16::replay },
+        "C17" => Prop { run: c17::run, replay: c17::replay },
         "C19" => Prop { run: c19::run, replay: c19::replay },
         _ => return None,
     })
